@@ -126,6 +126,8 @@ fn run_v<V: VringT<GM<()>> + Clone + Send + Sync + 'static>(sim: &Sim, cfg: &Run
             queues_per_thread: masks.clone(),
             // every dispatch "processes one request": the index GET_VRING_BASE reports must be final
             advance_avail_on_event: true,
+            // ... and raises one interrupt on the ring's call descriptor when it is done
+            signal_on_event: true,
             ..Default::default()
         },
         sim,
@@ -178,6 +180,13 @@ fn run_v<V: VringT<GM<()>> + Clone + Send + Sync + 'static>(sim: &Sim, cfg: &Run
     vmm.negotiate(offered, Some(protos), true).expect("negotiate");
     let mkfd = move || Arc::new(EventFd::new(if nonblock { libc::EFD_NONBLOCK } else { 0 }).expect("eventfd"));
     // initial state: every ring started and enabled
+    // one call descriptor per ring; (descriptor, dispatches of that ring when it was installed)
+    let calls: Arc<Mutex<Vec<(Arc<EventFd>, u64)>>> = Arc::new(Mutex::new(Vec::new()));
+    for r in 0..nrings {
+        let c = Arc::new(EventFd::new(libc::EFD_NONBLOCK).expect("eventfd"));
+        vmm.fe.set_vring_call(r, &c).expect("set_vring_call");
+        calls.lock().unwrap().push((c, 0));
+    }
     for r in 0..nrings {
         let fd = mkfd();
         vmm.fe.set_vring_kick(r, &fd).expect("set_vring_kick");
@@ -190,6 +199,7 @@ fn run_v<V: VringT<GM<()>> + Clone + Send + Sync + 'static>(sim: &Sim, cfg: &Run
 
     let sim_v = sim.clone();
     let orc_v = orc.clone();
+    let calls_v = calls.clone();
     let ctls2 = ctls.clone();
     // the frontend is handed to the VMM task and back, so that the connection outlives the task
     let slot = Arc::new(Mutex::new(Some(vmm)));
@@ -241,6 +251,27 @@ fn run_v<V: VringT<GM<()>> + Clone + Send + Sync + 'static>(sim: &Sim, cfg: &Run
                                 ));
                             }
                         }
+                    }
+                    {
+                        // GET_VRING_BASE also drops the call descriptor: every event-handler call
+                        // entered before the reply has finished by now, and each of them raised
+                        // its interrupt on the descriptor that was installed
+                        let done = orc_v.lock().unwrap().rings[r].dispatches;
+                        let (c, at_install) = calls_v.lock().unwrap()[r].clone();
+                        let got = c.read().unwrap_or(0);
+                        if got != done - at_install {
+                            sched::violation(Violation::new(
+                                "C12",
+                                "interrupt_lost_at_stop",
+                                "GET_VRING_BASE",
+                                format!("ring {r}: {} event-handler calls since its call descriptor was installed, each ending with signal_used_queue(), but the descriptor counted {got} when the reply to GET_VRING_BASE arrived (a call still under way when the descriptor was dropped lost its interrupt)", done - at_install),
+                            ));
+                        }
+                        let nc = Arc::new(EventFd::new(libc::EFD_NONBLOCK).expect("eventfd"));
+                        if let Err(e) = vmm.fe.set_vring_call(r, &nc) {
+                            fail("SET_VRING_CALL", e);
+                        }
+                        calls_v.lock().unwrap()[r] = (nc, done);
                     }
                     {
                         // kicks on the dropped descriptor are moot from here on
@@ -320,6 +351,20 @@ fn run_v<V: VringT<GM<()>> + Clone + Send + Sync + 'static>(sim: &Sim, cfg: &Run
     sim.join(guest);
     sim.join(vmm_task);
     sim.settle();
+    // every event-handler call raised its interrupt on the call descriptor installed at the time
+    for r in 0..nrings {
+        let done = orc.lock().unwrap().rings[r].dispatches;
+        let (c, at_install) = calls.lock().unwrap()[r].clone();
+        let got = c.read().unwrap_or(0);
+        if got != done - at_install {
+            sched::soft_violation(Violation::new(
+                "C12",
+                "interrupt_count",
+                "",
+                format!("ring {r}: {} event-handler calls since its current call descriptor was installed, but the descriptor counted {got}", done - at_install),
+            ));
+        }
+    }
     // liveness: with every ring started and enabled, the last kick on the current descriptor
     // must have been followed by a dispatch
     {
